@@ -300,13 +300,23 @@ def run(ctx):
                    "private copy" if private else "")
     ctx.count("stores_in_reachable_functions", nsw)
 
+    ng = global_state(ctx)
+    ctx.floor("C07 mutable file-scope variables examined", ng, 6)
+    ctx.assume("accepted lazy-initialisation idiom (g_dispatch, crc32_tables, g_cpu_info): concurrent first "
+               "use stores identical values; assumes x86-TSO and no compiler reordering across the flag store")
+
+
+def global_state(ctx, scope="src/", rule="R7.global"):
+    """Mutable file-scope and static-local state under `scope`: thread-local, never written, or an accepted idempotent lazy
+    initialiser - anything else is state shared by every caller and every thread. Returns the number of variables examined."""
+    P = ctx.P
     # ---- (2) mutable file-scope state of the whole library
     seen = set()
     ng = 0
     for unit, g in P.globals:
         name = g["name"]
         file_ = P.rel(g["file"])
-        if not file_.startswith("src/") or not g["def"] or (name, file_) in seen:
+        if not file_.startswith(scope) or not g["def"] or (name, file_) in seen:
             continue
         seen.add((name, file_))
         if g["const"]:
@@ -315,10 +325,10 @@ def run(ctx):
         key = "global|%s|%s" % (file_, name)
         writers = _writers(P, name, file_)
         if g["tls"]:
-            ctx.ok("R7.global", key, file_, "file-scope `%s` is thread-local" % name, "__thread/_Thread_local")
+            ctx.ok(rule, key, file_, "file-scope `%s` is thread-local" % name, "__thread/_Thread_local")
             continue
         if not writers:
-            ctx.ok("R7.global", key, file_, "file-scope `%s` is never written after static initialisation" % name,
+            ctx.ok(rule, key, file_, "file-scope `%s` is never written after static initialisation" % name,
                    "no writer in the library")
             continue
         if name in LAZY and LAZY[name][0] == file_:
@@ -326,7 +336,7 @@ def run(ctx):
             from ..rules import whomay
             extra = sorted(w for w in writers if not any(
                 whomay.allowed(P, g, lambda h: h.name in allowed) for g in P.by_name.get(w, []) if P.rel(g.file) == file_))
-            ctx.ob("R7.global", key, file_,
+            ctx.ob(rule, key, file_,
                    "lazy-initialised `%s` is written only by its initialiser(s)" % name, not extra,
                    "writers: %s" % sorted(writers))
             flag = LAZY[name][2]
@@ -354,30 +364,28 @@ def run(ctx):
                                 return True
                         return False
                     late = any(after_reaches(wf.cfg, s, is_tab_store) is not None for s in fl_stores)
-                    ctx.ob("R7.global", key + "|flag-last", P.where(fl_stores[0]),
+                    ctx.ob(rule, key + "|flag-last", P.where(fl_stores[0]),
                            "`%s` is published (flag `%s` set) only after its last store in %s" % (name, flag, wn),
                            not late)
-                ctx.ob("R7.global", key + "|flag-set", file_,
+                ctx.ob(rule, key + "|flag-set", file_,
                        "an initialiser of `%s` publishes the flag `%s` (plain or atomic store)" % (name, flag),
                        nflag > 0)
             continue
-        ctx.bad("R7.global", key, "%s:%d" % (file_, g["line"]),
+        ctx.bad(rule, key, "%s:%d" % (file_, g["line"]),
                 "mutable file-scope variable `%s` is neither thread-local nor an accepted idempotent "
                 "lazy initialiser; it is written by %s and shared by all threads" % (name, sorted(writers)))
     # static locals
     for fn in P.lib_functions():
-        if not P.rel(fn.file).startswith("src/"):
+        if not P.rel(fn.file).startswith(scope):
             continue
         for n in fn.body.walk():
             if n.k == "DeclStmt":
                 for d in n.get("decls", []):
                     if d.get("static") and not d.get("tls") and "const" not in d.get("t", ""):
                         ng += 1
-                        ctx.bad("R7.global", "static-local|%s:%s|%s" % (P.rel(fn.file), fn.name, d["n"]),
+                        ctx.bad(rule, "static-local|%s:%s|%s" % (P.rel(fn.file), fn.name, d["n"]),
                                 P.where(n), "mutable static local `%s` is shared by all threads" % d["n"])
-    ctx.floor("C07 mutable file-scope variables examined", ng, 6)
-    ctx.assume("accepted lazy-initialisation idiom (g_dispatch, crc32_tables, g_cpu_info): concurrent first "
-               "use stores identical values; assumes x86-TSO and no compiler reordering across the flag store")
+    return ng
 
 
 def region_args(ctx, P, cg, f, reg, ri, body, local_decls, lv, per_iteration, relfile):
